@@ -532,7 +532,7 @@ pub fn run(tier: Tier) -> ! {
     let mut fails = Fails(vec![]);
     let quick = run.quick();
     let micro = run.micro();
-    let max_k = if micro { 3 } else if quick { 9 } else { 13 };
+    let max_k = if micro { 2 } else if quick { 9 } else { 13 };
     let pools: &[usize] = if micro { &[1, 3] } else { &[1, 2, 3, 5, 8, 16] };
     let mut case = 0u64;
     for k in 0..=max_k {
@@ -564,7 +564,7 @@ pub fn run(tier: Tier) -> ! {
     // schedule monitor
     let mut sigs: HashSet<u64> = HashSet::new();
     let reps = if micro { 1 } else if quick { 3 } else { 25 };
-    let shapes: &[(usize, usize, usize)] = if micro { &[(3, 5, 0), (4, 3, 1)] } else { &[(6, 5, 0), (7, 8, 2), (8, 3, 1), (5, 9, 5), (9, 6, 3)] };
+    let shapes: &[(usize, usize, usize)] = if micro { &[(3, 5, 0), (3, 3, 1)] } else { &[(6, 5, 0), (7, 8, 2), (8, 3, 1), (5, 9, 5), (9, 6, 3)] };
     for rep in 0..reps {
         for &threads in pools {
             for &(k, width, cap_height) in shapes {
@@ -585,7 +585,7 @@ pub fn run(tier: Tier) -> ! {
         run.inconclusive("schedule monitor observed fewer than 2 distinct interleavings");
     }
     // batch trees
-    for b in 0..run.n(3, 150, 3000) {
+    for b in 0..run.n(2, 150, 3000) {
         case += 1;
         if run.skip_case(case) {
             continue;
